@@ -1,9 +1,230 @@
-//! C18 — placeholder until the serialization campaign lands
-use crate::gen::Rng;
-use crate::run::Case;
-pub fn gen_case(campaign: &str, _r: &mut Rng) -> Case {
-    panic!("unknown campaign {campaign}")
+//! C18 — serialization: the serde data-model tree the derived `Serialize` impls produce (recorded with a
+//! recording `Serializer`), the borsh bytes, and real round trips through serde_json, serde_cbor and borsh.
+use crate::gen::*;
+use crate::run::{Case, Val};
+use crate::types::*;
+use crate::with_fixed;
+use piecewise_polynomial::*;
+use serde::ser::{self, Serialize};
+use std::panic::{catch_unwind, AssertUnwindSafe};
+
+#[derive(Debug)]
+pub struct RecErr(String);
+impl std::fmt::Display for RecErr {
+    fn fmt(&self, f: &mut std::fmt::Formatter) -> std::fmt::Result {
+        write!(f, "{}", self.0)
+    }
 }
-pub fn run(_c: &Case) -> Option<Vec<(String, String)>> {
-    None
+impl std::error::Error for RecErr {}
+impl ser::Error for RecErr {
+    fn custom<T: std::fmt::Display>(msg: T) -> Self {
+        RecErr(msg.to_string())
+    }
+}
+
+/// records the calls a `Serialize` impl makes, as a string in the format of `Tree.render` (PP/Core/Serial.lean)
+pub struct Rec;
+pub struct SeqRec {
+    kind: char,
+    items: Vec<String>,
+}
+pub struct StructRec {
+    name: &'static str,
+    fields: Vec<String>,
+}
+
+macro_rules! unsupported {
+    ($($f:ident($($t:ty),*)),*) => { $( fn $f(self, $(_: $t),*) -> Result<String, RecErr> { Err(RecErr(format!("unmodelled serde call {}", stringify!($f)))) } )* };
+}
+
+impl ser::Serializer for Rec {
+    type Ok = String;
+    type Error = RecErr;
+    type SerializeSeq = SeqRec;
+    type SerializeTuple = SeqRec;
+    type SerializeTupleStruct = ser::Impossible<String, RecErr>;
+    type SerializeTupleVariant = ser::Impossible<String, RecErr>;
+    type SerializeMap = ser::Impossible<String, RecErr>;
+    type SerializeStruct = StructRec;
+    type SerializeStructVariant = ser::Impossible<String, RecErr>;
+    unsupported!(serialize_bool(bool), serialize_i8(i8), serialize_i16(i16), serialize_i32(i32), serialize_i64(i64),
+        serialize_u8(u8), serialize_u16(u16), serialize_u32(u32), serialize_u64(u64), serialize_f32(f32), serialize_char(char),
+        serialize_str(&str), serialize_bytes(&[u8]), serialize_none(), serialize_unit(), serialize_unit_struct(&'static str),
+        serialize_unit_variant(&'static str, u32, &'static str));
+    fn serialize_f64(self, v: f64) -> Result<String, RecErr> {
+        Ok(format!("F{:016x}", v.to_bits()))
+    }
+    fn serialize_some<T: ?Sized + Serialize>(self, _: &T) -> Result<String, RecErr> {
+        Err(RecErr("unmodelled serde call serialize_some".into()))
+    }
+    fn serialize_newtype_struct<T: ?Sized + Serialize>(self, name: &'static str, value: &T) -> Result<String, RecErr> {
+        Ok(format!("N({name},{})", value.serialize(Rec)?))
+    }
+    fn serialize_newtype_variant<T: ?Sized + Serialize>(self, _: &'static str, _: u32, _: &'static str, _: &T) -> Result<String, RecErr> {
+        Err(RecErr("unmodelled serde call serialize_newtype_variant".into()))
+    }
+    fn serialize_seq(self, _len: Option<usize>) -> Result<SeqRec, RecErr> {
+        Ok(SeqRec { kind: 'Q', items: vec![] })
+    }
+    fn serialize_tuple(self, _len: usize) -> Result<SeqRec, RecErr> {
+        Ok(SeqRec { kind: 'T', items: vec![] })
+    }
+    fn serialize_tuple_struct(self, _: &'static str, _: usize) -> Result<Self::SerializeTupleStruct, RecErr> {
+        Err(RecErr("unmodelled serde call serialize_tuple_struct".into()))
+    }
+    fn serialize_tuple_variant(self, _: &'static str, _: u32, _: &'static str, _: usize) -> Result<Self::SerializeTupleVariant, RecErr> {
+        Err(RecErr("unmodelled serde call serialize_tuple_variant".into()))
+    }
+    fn serialize_map(self, _: Option<usize>) -> Result<Self::SerializeMap, RecErr> {
+        Err(RecErr("unmodelled serde call serialize_map".into()))
+    }
+    fn serialize_struct(self, name: &'static str, _len: usize) -> Result<StructRec, RecErr> {
+        Ok(StructRec { name, fields: vec![] })
+    }
+    fn serialize_struct_variant(self, _: &'static str, _: u32, _: &'static str, _: usize) -> Result<Self::SerializeStructVariant, RecErr> {
+        Err(RecErr("unmodelled serde call serialize_struct_variant".into()))
+    }
+}
+impl ser::SerializeSeq for SeqRec {
+    type Ok = String;
+    type Error = RecErr;
+    fn serialize_element<T: ?Sized + Serialize>(&mut self, v: &T) -> Result<(), RecErr> {
+        self.items.push(v.serialize(Rec)?);
+        Ok(())
+    }
+    fn end(self) -> Result<String, RecErr> {
+        Ok(format!("{}({})", self.kind, self.items.join(",")))
+    }
+}
+impl ser::SerializeTuple for SeqRec {
+    type Ok = String;
+    type Error = RecErr;
+    fn serialize_element<T: ?Sized + Serialize>(&mut self, v: &T) -> Result<(), RecErr> {
+        self.items.push(v.serialize(Rec)?);
+        Ok(())
+    }
+    fn end(self) -> Result<String, RecErr> {
+        Ok(format!("{}({})", self.kind, self.items.join(",")))
+    }
+}
+impl ser::SerializeStruct for StructRec {
+    type Ok = String;
+    type Error = RecErr;
+    fn serialize_field<T: ?Sized + Serialize>(&mut self, key: &'static str, v: &T) -> Result<(), RecErr> {
+        self.fields.push(format!("{key}={}", v.serialize(Rec)?));
+        Ok(())
+    }
+    fn end(self) -> Result<String, RecErr> {
+        Ok(format!("S({};{})", self.name, self.fields.join(";")))
+    }
+}
+
+fn ser_float(r: &mut Rng, finite_only: bool) -> f64 {
+    loop {
+        let x = match r.below(10) {
+            0 => gen_cls(r, Cls::Subnormal),
+            1 => *r.pick(&[0.0, -0.0, f64::MAX, f64::MIN_POSITIVE, -f64::MAX, 5e-324, 1.0 / 3.0, 0.1]),
+            2 => gen_cls(r, Cls::Huge),
+            3 => gen_cls(r, Cls::Tiny),
+            4 => {
+                if finite_only {
+                    1.0
+                } else {
+                    *r.pick(&[f64::INFINITY, f64::NEG_INFINITY])
+                }
+            }
+            5..=6 => f64::from_bits(r.next()),
+            _ => moderate(r).0,
+        };
+        if !x.is_nan() && !(finite_only && x.is_infinite()) {
+            return x;
+        }
+    }
+}
+
+pub fn gen_case(campaign: &str, r: &mut Rng) -> Case {
+    assert_eq!(campaign, "serde");
+    let kind = *r.pick(&["piece", "piece", "seg", "pw", "pw", "knot"]);
+    let tag = *r.pick(crate::campaigns::FIXED_TAGS);
+    let finite_only = r.chance(3, 4);
+    let n = tag_len(tag);
+    let nums = |r: &mut Rng| -> Vec<f64> { (0..n).map(|_| ser_float(r, finite_only)).collect() };
+    let mut c = Case::new("serde", tag).set("kind", Val::S(kind.into()));
+    match kind {
+        "piece" => c = c.set("p", Val::L(nums(r))),
+        "knot" => c = c.set("p", Val::L(vec![ser_float(r, finite_only), ser_float(r, finite_only)])),
+        "seg" => c = c.set("pw", Val::Pw(vec![(ser_float(r, finite_only), nums(r))])),
+        _ => {
+            let k = r.below(6) as usize;
+            c = c.set("pw", Val::Pw((0..k).map(|_| (ser_float(r, finite_only), nums(r))).collect()));
+        }
+    }
+    let mut c = c.cls(&format!("{kind}:{tag}:finite={finite_only}"));
+    c.nontrivial = kind != "knot";
+    c
+}
+
+fn bits_eq(a: &[f64], b: &[f64]) -> bool {
+    a.len() == b.len() && a.iter().zip(b).all(|(x, y)| x.to_bits() == y.to_bits())
+}
+
+fn one<V>(v: &V, flat: &dyn Fn(&V) -> Vec<f64>) -> Vec<(String, String)>
+where
+    V: Serialize + serde::de::DeserializeOwned + borsh::BorshSerialize + borsh::BorshDeserialize,
+{
+    let tree = Serialize::serialize(v, Rec).unwrap_or_else(|e| format!("ERR:{}", e.0.replace(' ', "_")));
+    let orig = flat(v);
+    let finite = orig.iter().all(|x| x.is_finite());
+    let b = borsh::to_vec(v);
+    let borsh_hex = match &b {
+        Ok(bytes) => bytes.iter().map(|x| format!("{x:02x}")).collect::<String>(),
+        Err(_) => "ERR".to_string(),
+    };
+    let rt_json = if !finite {
+        '-'
+    } else {
+        match serde_json::to_string(v).ok().and_then(|s| serde_json::from_str::<V>(&s).ok()) {
+            Some(back) if bits_eq(&flat(&back), &orig) => '1',
+            _ => '0',
+        }
+    };
+    let rt_cbor = match serde_cbor::to_vec(v).ok().and_then(|s| serde_cbor::from_slice::<V>(&s).ok()) {
+        Some(back) if bits_eq(&flat(&back), &orig) => '1',
+        _ => '0',
+    };
+    let rt_borsh = match b.ok().and_then(|s| borsh::from_slice::<V>(&s).ok()) {
+        Some(back) if bits_eq(&flat(&back), &orig) => '1',
+        _ => '0',
+    };
+    vec![
+        ("tree".into(), tree.clone()),
+        ("borsh".into(), borsh_hex),
+        ("rt".into(), format!("{rt_json}{rt_cbor}{rt_borsh}")),
+        ("impl".into(), "1".into()),
+    ]
+}
+
+pub fn run(c: &Case) -> Option<Vec<(String, String)>> {
+    let tag = c.tag.as_str();
+    let kind = c.st("kind").to_string();
+    let r = catch_unwind(AssertUnwindSafe(|| -> Option<Vec<(String, String)>> {
+        if kind == "knot" {
+            let p = c.li("p");
+            return Some(one(&Knot { x: p[0], y: p[1] }, &|k: &Knot| vec![k.x, k.y]));
+        }
+        with_fixed!(tag, T => {
+            match kind.as_str() {
+                "piece" => one(&T::from_nums(c.li("p")), &|v: &T| v.to_nums()),
+                "seg" => {
+                    let pw = pw_to::<T>(c.pw("pw"));
+                    one(&pw.segments[0], &|s: &Segment<T>| { let mut v = vec![s.end]; v.extend(s.poly.to_nums()); v })
+                }
+                _ => one(&pw_to::<T>(c.pw("pw")), &|p: &Piecewise<T>| p.segments.iter().flat_map(|s| { let mut v = vec![s.end]; v.extend(s.poly.to_nums()); v }).collect()),
+            }
+        })
+    }));
+    match r {
+        Ok(v) => v,
+        Err(_) => Some(vec![("impl".into(), "PANIC".into())]),
+    }
 }
